@@ -281,6 +281,17 @@ def gen_workload(rseed: int, tier: str) -> Dict[str, Any]:
     pool = []
     for _ in range(g.randint(1, 4)):
         pool.append(g.choice(invalid_s) if (invalid_s and g.random() < fail_share) else g.choice(valid_s))
+    if g.random() < 0.35:
+        # a family of near-identical documents (siblings), parsed by different threads / one after the other
+        fam: Dict[str, List[int]] = {}
+        for d in docs:
+            if d["name"].startswith("tmpl") and "!" not in d["name"]:
+                fam.setdefault(d["name"].split("~")[0], []).append(d["id"])
+        fams = [v for v in fam.values() if len(v) > 1]
+        if fams:
+            pool = list(g.choice(fams))
+            g.shuffle(pool)
+            pool = pool[:4]
     maxops = g.choice([1, 2, 3, 4, 6])
     ap_mode = g.choice(["F", "T", "mix", "mix"])
     rend_mode = g.choice(["default", "default", "mix"])
